@@ -338,6 +338,7 @@ pub fn generate(seed: u64, idx: u64, thorough: bool) -> Run {
             bit_start,
             bit_count,
             threads: pick_threads(&mut rng, bit_count).min(12),
+            via_struct: rng.chance(300),
         })
     } else if kind < 89 {
         // the word-level wrappers split one arena between packing and the evaluator threads
@@ -897,6 +898,7 @@ pub fn miri_main(args: &[String]) -> ! {
                 bit_start: 1,
                 bit_count: 3,
                 threads: 2,
+                via_struct: false,
             };
             let m = b.prep(&s, &w, None).0;
             s.threads = 1;
